@@ -321,7 +321,7 @@ def cmdExpire : Cmd := fun env db args =>
     | none => (errInt, db)
     | some s =>
       let opt := lower (optl.headD [])
-      if !(opt == [] || opt == ofStr "nx" || opt == ofStr "xx" || opt == ofStr "gt" || opt == ofStr "lt") then
+      if !(optl.isEmpty || opt == ofStr "nx" || opt == ofStr "xx" || opt == ofStr "gt" || opt == ofStr "lt") then
         (.err (ofStr "ERR Unsupported option"), db) else
       if !inI64 (env.now + s) then (.err (ofStr "ERR invalid expire time in 'expire' command"), db) else
       let (db, _) := checkTTL db env.now k
